@@ -306,7 +306,7 @@ func (vc *VC) sortOf(t types.Type) string {
 	return "Int"
 }
 
-var aliasRe = regexp.MustCompile(`\b(byte|rune)\b`)
+var aliasRe = regexp.MustCompile(`\b(byte|rune|any)\b`)
 
 func typeKey(t types.Type) string {
 	s := types.TypeString(t, func(p *types.Package) string {
@@ -320,6 +320,9 @@ func typeKey(t types.Type) string {
 	s = aliasRe.ReplaceAllStringFunc(s, func(m string) string {
 		if m == "byte" {
 			return "uint8"
+		}
+		if m == "any" {
+			return "interface{}"
 		}
 		return "int32"
 	})
